@@ -395,6 +395,12 @@ func (x *Exec) block(fr *frame, b *ssa.BasicBlock, s *State) {
 			fr.retVals = append(fr.retVals, rv)
 			return
 		case *ssa.Panic:
+			if strings.HasPrefix(b.Comment, "rangefunc.") || b.Comment == "yield-invalid" {
+				// compiler-generated check of the range-over-func protocol: it fires only when the
+				// iterator misuses the yield function (assumed of the iterators of the standard library)
+				x.C.Trusted["iterators called by range-over-func loops honour the yield protocol (the compiler-generated protocol panics are unreachable)"] = true
+				return
+			}
 			if x.safety {
 				x.C.Oblige(x.oblName(fr.fn, "panic"), "panic", x.pos(in.Pos()), "explicit panic is unreachable", s.Reach, False)
 			}
